@@ -40,6 +40,7 @@ fn go_kinds() -> Vec<(&'static str, bool)> {
         ("go nodes 400", true),
         ("go movetime 30", true),
         ("go wtime 600 btime 600", true),
+        ("go wtime 150 btime 150 winc 1 binc 1", true),
         // budgets that will not run out during the schedule: the search must be ended by stop
         ("go movetime 3600000", false),
         ("go nodes 4000000000", false),
@@ -459,7 +460,11 @@ fn check_history(prop_name: &str, sched: &Schedule, e: &Engine, job: usize, miss
         return None;
     }
     for (k, g) in gos.iter().enumerate() {
-        let legal: Vec<String> = g.pos.legal_moves().iter().map(Mv::uci).collect();
+        let mut legal: Vec<String> = g.pos.legal_moves().iter().map(Mv::uci).collect();
+        if legal.is_empty() {
+            // a finished game (mate or stalemate on the board): the null move is the answer
+            legal.push("0000".to_string());
+        }
         if g.bestmoves.is_empty() {
             let why = if refused {
                 "the go was refused: 'Search is already running'"
@@ -725,7 +730,21 @@ fn stress_session(ctx: &Ctx, idx: usize, seeds: &[String], cycles: u64) {
             }
             _ => random_game(&mut rng, seeds, 12, true),
         };
-        prev = Some(g.clone());
+        // one cycle in twelve is a go on a finished game (mate or stalemate on the board): it is
+        // answered at once with the null move and must leave nothing behind for the next cycle
+        let g = if rng.chance(1, 12) {
+            let fen = *rng.pick(&["7k/5K2/6Q1/8/8/8/8/8 b - - 0 1", "R5k1/5ppp/8/8/8/8/5PPP/6K1 b - - 0 1", "7k/5Q2/6K1/8/8/8/8/8 b - - 0 1", "K1k5/P7/8/8/8/8/8/8 w - - 0 1"]);
+            out::count("C10.stress_cycles_on_a_finished_game", 1);
+            Game {
+                start_fen: fen.to_string(),
+                is_startpos: false,
+                moves: vec![],
+                positions: vec![Pos::from_fen(fen).unwrap()],
+            }
+        } else {
+            g
+        };
+        prev = if g.last().legal_moves().is_empty() { None } else { Some(g.clone()) };
         e.send(&g.command());
         let go = *rng.pick(&[
             "go infinite",
